@@ -65,7 +65,7 @@ type C10Variant struct {
 	Path       string   `json:"path"`
 	Nest       []string `json:"nest,omitempty"`
 	BuildFirst bool     `json:"build_first"`   // build through the created object before nesting (else through the outermost wrapper)
-	Entry      int      `json:"entry"`         // 0 Wrap.Render 1 pkg Render 2 Wrap.RenderTo 3 auto.Render 4 pkg RenderTo 5 auto.RenderTo (2, 4, 5 into a *bytes.Buffer); 6, 7, 8 = 2, 4, 5 into a writer that is an io.Writer and nothing more
+	Entry      int      `json:"entry"`         // 0 Wrap.Render 1 pkg Render 2 Wrap.RenderTo 3 auto.Render 4 pkg RenderTo 5 auto.RenderTo (2, 4, 5 into a *bytes.Buffer); 6, 7, 8 = 2, 4, 5 into a writer that is an io.Writer and nothing more; 9, 10 auto.Wrap(t, style).Render / RenderTo; 11 the created (outermost) object itself when it is of the target's kind, given the target's options (else as 0); with Retune > 0 or from 9 on, Entry%3 picks Render / RenderTo into a buffer / into a plain writer (c10_r6.go)
 	Pre        []string `json:"pre,omitempty"` // formats rendered (and discarded) from the same object before the target
 	// Poison: before anything else, renders of ANOTHER table fail in every format
 	// (json on an unencodable item; the others on a failing writer)
@@ -95,11 +95,19 @@ type C10Variant struct {
 	// Sty shifts the choice among the spellings of the style string that the
 	// auto entry points are given
 	Sty int `json:"sty,omitempty"`
+	// Retune (c10_r6.go): the wrapper object the target render goes through has a
+	// history of its own: it is given other options and renders, that many
+	// times, before it is given the target's options and renders for the comparison
+	Retune int `json:"retune,omitempty"`
+	// ObsLate (c10_r6.go): the spec's observer callbacks are all registered after
+	// nesting and building (else those on the table and its default column are
+	// registered on the created object before anything else happens to it)
+	ObsLate bool `json:"obs_late,omitempty"`
 }
 
 // rendersBefore: something renders the table before the target render does
 func (v C10Variant) rendersBefore() bool {
-	return len(v.Pre) > 0 || v.Tune&24 != 0 || v.StageRenders
+	return len(v.Pre) > 0 || v.Tune&24 != 0 || v.StageRenders || v.Retune > 0
 }
 
 var c10Once sync.Once
@@ -203,6 +211,8 @@ type C10Spec struct {
 	// it) every header item gets a new text and its cell is updated in place
 	// (Headers()[i].Update()); what is compared is the render after that.
 	HdrMut bool `json:"hdr_mut,omitempty"`
+	// Obs (c10_r6.go): application callbacks that only observe (and may report an error)
+	Obs []C10Obs `json:"obs,omitempty"`
 }
 
 // c10MutateHeader changes every mutable header item and updates its cell.
@@ -260,6 +270,9 @@ func c10Render(sp C10Spec, v C10Variant) Outcome {
 			c10Poison()
 		}
 		obj := c10Create(v.Path)
+		if !v.ObsLate {
+			c10RegisterObs(sp.Obs, obj, v.ObsLate, 0)
+		}
 		var objs map[[2]int]*objData
 		layers := []tabular.Table{obj}
 		var stage func()
@@ -292,8 +305,8 @@ func c10Render(sp C10Spec, v C10Variant) Outcome {
 				c10AddFill(obj, sp.Fill)
 			}
 		}
-		htmlWrap := func() *html.HTMLTable {
-			ht := html.Wrap(obj)
+		c10RegisterObs(sp.Obs, obj, v.ObsLate, 1)
+		setGen := func(ht *html.HTMLTable) {
 			if sp.Decor == "gen" {
 				ht.SetRowClassGenerator(func(n int, _ interface{}) htmltemplate.HTMLAttr {
 					if v.Reentrant {
@@ -305,6 +318,10 @@ func c10Render(sp C10Spec, v C10Variant) Outcome {
 					return htmltemplate.HTMLAttr(fmt.Sprintf("r%d", n))
 				}, nil)
 			}
+		}
+		htmlWrap := func() *html.HTMLTable {
+			ht := html.Wrap(obj)
+			setGen(ht)
 			return ht
 		}
 		var early RenderW
@@ -387,6 +404,9 @@ func c10Render(sp C10Spec, v C10Variant) Outcome {
 			}
 		}
 		entry := v.Entry
+		if v.Retune > 0 || entry >= 9 {
+			return c10RenderOwn(sp, v, obj, early, setGen)
+		}
 		if early != nil {
 			switch entry % 3 {
 			case 0:
@@ -590,6 +610,7 @@ func c10Variants(r *RNG, tier string) []C10Variant {
 		add(p, nest)
 	}
 	vs = append(vs, c10MoreVariants(r)...)
+	vs = append(vs, c10R6Variants(r, tier)...)
 	return vs
 }
 
@@ -704,6 +725,10 @@ func init() {
 				}
 				ts.Header = &h
 				out = append(out, mustJSON(C10Spec{Table: ts, Fmt: fd.f, Decor: fd.d, HdrMut: true, Variants: c10Variants(r, tier)}))
+			}
+			// observer callbacks of the application, reporting errors or not (c10_r6.go)
+			for _, sp := range c10R6Specs(r, tier, tables[:2]) {
+				out = append(out, mustJSON(sp))
 			}
 			// items changed in place after they were added (every relation between the
 			// old and the new text's sizes), on every path and through every entry point
@@ -843,6 +868,23 @@ func init() {
 					v2 := v
 					v2.Sty = v.Sty % 4
 					one(v2)
+				}
+				if v.Retune > 0 {
+					v2 := v
+					v2.Retune--
+					one(v2)
+				}
+				if v.ObsLate {
+					v2 := v
+					v2.ObsLate = false
+					one(v2)
+				}
+			}
+			if len(sp.Variants) <= 2 {
+				for i := range sp.Obs {
+					c := sp
+					c.Obs = append(append([]C10Obs{}, sp.Obs[:i]...), sp.Obs[i+1:]...)
+					out = append(out, mustJSON(c))
 				}
 			}
 			return out
